@@ -8,7 +8,7 @@ import pathlib
 from sa import algebra as alg
 from sa.bitabs import ABits, ACond, F, Interp, explore
 from sa.model import AnalysisError, ClassInfo, ClassRef, NPArr, Unfoldable
-from sa.wiring import Misbehaves, single_path
+from sa.wiring import multi_path, Misbehaves, single_path
 
 SPEC = pathlib.Path(__file__).resolve().parent.parent / "spec" / "fec_matrices.json"
 
@@ -245,6 +245,7 @@ def use_rules(ctx, ci, Gd, myH, n, k, d, is_hamming):
 
     res = explore(run_chk)
     accept = []
+    excluded = []
     for st, (kind, v) in res:
         if kind == "abort":
             raise AnalysisError(f"{chk.qualname}: {v}")
@@ -254,7 +255,17 @@ def use_rules(ctx, ci, Gd, myH, n, k, d, is_hamming):
         cons = []
         for key, const, eq in st.eqs:
             if not eq:
-                continue
+                # the path has excluded one value of some bits (`if not word.any(): return False`): on an accepting path that
+                # removes words from the accepted set — a violation when a codeword is among them
+                if v is False:
+                    continue
+                w = len(key)
+                if w == n and all(isinstance(f, F) and f == I3.atom_form(("w", i)) for i, f in enumerate(key)):
+                    word = [(const >> (w - 1 - i)) & 1 for i in range(w)]
+                    if all(sum(h * b for h, b in zip(row, word)) % 2 == 0 for row in myH):
+                        excluded.append("".join(map(str, word)))
+                    continue
+                raise AnalysisError(f"{chk.qualname}: an accepting path excludes a value of part of the word (not modelled)")
             w = len(key)
             for i, f in enumerate(key):
                 cons.append(f ^ ((const >> (w - 1 - i)) & 1))
@@ -286,9 +297,10 @@ def use_rules(ctx, ci, Gd, myH, n, k, d, is_hamming):
         if len(cons) != len(accept[0]):
             raise AnalysisError(f"{chk.qualname}: opaque acceptance condition")
         r_c, r_s, r_both = lin_rank(cons), lin_rank(syn), lin_rank(cons + syn)
-        okc = r_c == r_s == r_both == n - k
+        okc = r_c == r_s == r_both == n - k and not excluded
         detail = (f"acceptance condition has rank {r_c}, the syndrome equations rank {r_s}, together {r_both} (need all = n-k = {n - k}): "
-                  + ("checker accepts exactly the 2^k codewords" if okc else "the checker's accepted set is NOT the code" + (f" (accepts 2^{n - r_c} words)" if r_c < n - k else "")))
+                  + ("checker accepts exactly the 2^k codewords" if okc else "the checker's accepted set is NOT the code" + (f" (accepts 2^{n - r_c} words)" if r_c < n - k else ""))
+                  + (f"; the codeword(s) {excluded[:3]} are rejected by a special case" if excluded else ""))
     lens_ok = True
     for wrong in (n - 1, n + 1):
         I4 = _interp(repo)
@@ -310,8 +322,12 @@ def use_rules(ctx, ci, Gd, myH, n, k, d, is_hamming):
         return _call(I5, chk, ci, [ABits(Frame_bits(cw), "ba")])
 
     try:
-        st, v = single_path(I5, run_gc, f"{q}: check(generate(x))")
-        ctx.ob("use/generate-passes-check", q, v is True, f"check(generate(x)) evaluates to {v!r} (must be True for all x)", chk.loc)
+        paths = multi_path(I5, run_gc, f"{q}: check(generate(x))")
+        notrue = [(st, v) for st, v in paths if v is not True]
+        for st, v in notrue:
+            if v is not False:
+                raise AnalysisError(f"{q}: check(generate(x)) evaluates to {v!r} on path {st.labels[-2:]} (not modelled)")
+        ctx.ob("use/generate-passes-check", q, not notrue, f"check(generate(x)) over {len(paths)} path(s): " + ("True for all x" if not notrue else f"False on path {notrue[0][0].labels[-2:]}"), chk.loc)
     except Misbehaves as e:
         ctx.ob("use/generate-passes-check", q, False, str(e), chk.loc)
 
